@@ -292,11 +292,13 @@ pub fn gen_case(t: &mut Tape) -> Case {
         let ud = if t.chance(1, 3) { us } else if t.coin() { t.u32() & !7 | 6 } else { crate::engine::gen_seed(t) };
         return Case { a4, b4, a6, b6, sp, dp, flow, scope, unix_seed: [us, ud] };
     }
+    let (a4, b4) = crate::gen::gen_v4_pair(t);
+    let (a6, b6) = crate::gen::gen_v6_pair(t);
     let mut c = Case {
-        a4: crate::gen::gen_v4(t),
-        b4: crate::gen::gen_v4(t),
-        a6: crate::gen::gen_v6(t),
-        b6: crate::gen::gen_v6(t),
+        a4,
+        b4,
+        a6,
+        b6,
         sp: crate::gen::gen_port(t),
         dp: crate::gen::gen_port(t),
         flow: [t.u32(), t.u32()],
